@@ -133,6 +133,7 @@ func TestGovcReplay(t *testing.T) {
 	pre := []byte{%s}
 	stream := []byte{%s}
 	entry := %q
+	wellFormedV1 := %v // the input was built from a grammar of well-formed v1 lines
 	for _, one := range []bool{false, true} {
 		var rd io.Reader = bytes.NewReader(stream)
 		if one {
@@ -162,6 +163,9 @@ func TestGovcReplay(t *testing.T) {
 		}()
 		all := append(append([]byte{}, pre...), stream...)
 		consumed := len(pre) + cr.n
+		if wellFormedV1 && err != nil {
+			t.Errorf("well-formed v1 header rejected: %%v (one-byte=%%v) input=%%q", err, one, all[:consumed])
+		}
 		if err == nil {
 			if h == nil {
 				t.Errorf("nil header with nil error (one-byte=%%v)", one)
@@ -230,8 +234,21 @@ func c08Adapter(entry string, preLen int) replayAdapter {
 				stream = append(stream, 0)
 			}
 		}
-		src := fmt.Sprintf(c08Template, byteList(pre), byteList(stream), entry)
-		return runOverlayTest(w, "proxyproto", "zz_govc_replay_test.go", src, "TestGovcReplay", dir)
+		src := fmt.Sprintf(c08Template, byteList(pre), byteList(stream), entry, false)
+		failed, tr := runOverlayTest(w, "proxyproto", "zz_govc_replay_test.go", src, "TestGovcReplay", dir)
+		if failed {
+			return true, tr
+		}
+		// The contracts abstract address/port parsing (net.ParseIP, strconv.Atoi are
+		// uninterpreted), so the model's address text is arbitrary. Concretise it:
+		// keep the model's family, line length p and everything from the CRLF on,
+		// and substitute a canonical well-formed line of the same length.
+		if rep, ok := repairV1(all); ok {
+			src2 := fmt.Sprintf(c08Template, byteList(rep[:preLen]), byteList(rep[preLen:]), entry, true)
+			failed2, tr2 := runOverlayTest(w, "proxyproto", "zz_govc_replay_test.go", src2, "TestGovcReplay", dir)
+			return failed2, tr + "\n\n=== replay with the address text concretised to a well-formed line of the same length ===\n" + tr2
+		}
+		return false, tr
 	}
 }
 
@@ -273,4 +290,64 @@ func init() {
 	replayAdapters["proxyproto.ReadV2Header"] = c08Adapter("ReadV2Header", 0)
 	replayAdapters["proxyproto.readV2Header"] = c08Adapter("readV2Header", 13)
 	replayAdapters["proxyproto.readV1Header"] = c08Adapter("readV1Header", 13)
+}
+
+// repairV1 rebuilds a well-formed "PROXY TCPx a b p q" line with the same
+// family and the same CRLF position as the model's bytes.
+func repairV1(all []int) ([]int, bool) {
+	if len(all) < 24 {
+		return nil, false
+	}
+	fam := ""
+	if all[6] == 'T' && all[7] == 'C' && all[8] == 'P' && (all[9] == '4' || all[9] == '6') {
+		fam = string(rune(all[9]))
+	} else {
+		return nil, false
+	}
+	p := -1
+	for i := 0; i+1 < len(all) && i < 108; i++ {
+		if all[i] == 13 && all[i+1] == 10 {
+			p = i
+			break
+		}
+	}
+	if p < 0 {
+		return nil, false
+	}
+	line := wfV1Line(fam, p)
+	if line == "" {
+		return nil, false
+	}
+	out := make([]int, 0, len(all))
+	for i := 0; i < len(line); i++ {
+		out = append(out, int(line[i]))
+	}
+	out = append(out, all[p:]...)
+	return out, true
+}
+
+// wfV1Line returns a well-formed v1 line (without CRLF) of exactly n bytes.
+func wfV1Line(fam string, n int) string {
+	var addrs []string
+	if fam == "4" {
+		addrs = []string{"1.1.1.1", "10.1.1.1", "10.10.1.1", "10.10.10.1", "10.10.10.10", "100.10.10.10", "100.100.10.10", "100.100.100.10", "100.100.100.100"}
+	} else {
+		addrs = []string{"::", "::1", "::12", "::123", "::1234", "::1:234", "::1:2345", "::12:2345", "::123:2345", "::1234:2345", "::1:1234:2345", "::12:1234:2345", "::123:1234:2345", "::1234:1234:2345",
+			"::1:1234:1234:2345", "::12:1234:1234:2345", "::123:1234:1234:2345", "::1234:1234:1234:2345", "::1:1234:1234:1234:2345", "::12:1234:1234:1234:2345", "::123:1234:1234:1234:2345", "::1234:1234:1234:1234:2345",
+			"::1:1234:1234:1234:1234:2345", "::12:1234:1234:1234:1234:2345", "::123:1234:1234:1234:1234:2345", "::1234:1234:1234:1234:1234:2345", "::1:1234:1234:1234:1234:1234:2345"}
+	}
+	ports := []string{"1", "12", "123", "1234", "12345"}
+	for _, a := range addrs {
+		for _, b := range addrs {
+			for _, p := range ports {
+				for _, q := range ports {
+					l := "PROXY TCP" + fam + " " + a + " " + b + " " + p + " " + q
+					if len(l) == n {
+						return l
+					}
+				}
+			}
+		}
+	}
+	return ""
 }
